@@ -315,15 +315,21 @@ pub fn render_file(r: &mut StdRng, includes: &[(usize, String)], depth_hint: usi
     let mut prev_class: u16 = 1;
     let pool: Vec<Labels> = (0..6).map(|_| (0..r.gen_range(1..4)).map(|_| rand_label(r)).collect()).collect();
     // depth_hint > 0 asks for a file well beyond the parser's 16 KiB read buffer (fields straddling refill points)
-    let nitems = if depth_hint > 0 { r.gen_range(600..1300) } else if first { r.gen_range(3..25) } else { r.gen_range(1..8) };
+    let nitems = if depth_hint == 1 { r.gen_range(600..1300) } else if first { r.gen_range(3..25) } else { r.gen_range(1..8) };
     let mut pending_includes: Vec<(usize, String)> = includes.to_vec();
     // deliberately broken file: the first record omits something that cannot be inherited
     let broken = (first && includes.is_empty() && r.gen_bool(0.04)) || (!first && r.gen_bool(0.06));
     // a relative owner or '@' although no origin is in force: the parse must fail there (an included file inherits an
     // origin only from the directive or its includer, and an includer without origin must not keep the include's)
     let mut rel_without_origin = r.gen_bool(0.06);
+    // depth_hint == 2: a top file that never sets an origin and tries a relative name right after an $INCLUDE
+    // (the included file may have set an origin of its own, or got one from the directive: it must not leak back)
+    let no_origin_top = depth_hint == 2;
+    let mut want_rel_probe = false;
     for _ in 0..nitems {
-        let k = r.gen_range(0..100);
+        let mut k = r.gen_range(0..100);
+        if no_origin_top && k < 10 { k = 50; }
+        if want_rel_probe { k = 99; }
         if k < 10 {
             let o = pool.choose(r).unwrap().clone();
             let (t, _) = name_text(r, &o, &None, false);
@@ -366,6 +372,7 @@ pub fn render_file(r: &mut StdRng, includes: &[(usize, String)], depth_hint: usi
             if r.gen_bool(0.2) { text.extend_from_slice(b" ; pull it in"); }
             text.extend_from_slice(eol);
             items.push(json!({"k": "include", "file": idx, "horigin": with_origin, "origin": if with_origin { wire(&o) } else { vec![0] }, "nl": 1}));
+            if no_origin_top && r.gen_bool(0.5) { want_rel_probe = true; }
             // after an include the previous class is whatever the included file left: the next record names its class
             // explicitly so that the renderer knows which RDATA presentation is legal
             has_class = false;
@@ -381,8 +388,9 @@ pub fn render_file(r: &mut StdRng, includes: &[(usize, String)], depth_hint: usi
             }
             let mut line: Vec<u8> = Vec::new();
             let oform;
-            if rel_without_origin && origin.is_none() && first && r.gen_bool(0.3) {
+            if (want_rel_probe && origin.is_none()) || (rel_without_origin && origin.is_none() && first && r.gen_bool(0.3)) {
                 rel_without_origin = false;
+                want_rel_probe = false;
                 if r.gen_bool(0.5) {
                     line.extend_from_slice(b"@");
                     oform = json!({"form": "at", "labels": [], "name": [0]});
@@ -633,7 +641,7 @@ fn fs_trees(r: &mut StdRng, n: usize, out: &mut Out, scratch: &Path) {
         let mut files: Vec<Value> = Vec::new();
         let mut texts: Vec<Vec<u8>> = Vec::new();
         for i in 0..nfiles {
-            let f = render_file(r, &incl[i], 0, i == 0);
+            let f = render_file(r, &incl[i], if i == 0 && t % 3 == 0 { 2 } else { 0 }, i == 0);
             files.push(json!({"items": f.items}));
             texts.push(f.text);
         }
